@@ -609,7 +609,17 @@ void h_run(Ctx &c)
 	const char *mech = kind == 0 ? "console_process" : "console_putchar";
 	for (unsigned i = 0; i < nseg && !c.failed; i++) {
 		std::string seg;
-		if (t.weighted({ 4, 1 }) == 0) {
+		if (c.feat(2) && t.weighted({ 12, 1 }) == 1) {
+			// a line that fills the buffer exactly (79 characters), then one more character of any kind: by the time
+			// that character has been consumed the 79-character line has been dispatched, whichever character it is
+			std::string L = s.names.empty() ? std::string("echo") : s.names[t.choose(s.names.size())];
+			L += ' ';
+			L += std::string(79 - L.size(), 'w');
+			static const char FOLLOW[] = { '\b', 3, 'z', '\n', ' ', '\b' };
+			seg = L + FOLLOW[t.choose(sizeof FOLLOW)] + "\n";
+			longline = true;
+			c.cls("buffer-filled-exactly-then-one-more-character");
+		} else if (t.weighted({ 4, 1 }) == 0) {
 			std::string L = gen_line(t, s, c, kind == 0);
 			if (L.size() >= 70)
 				longline = true;
